@@ -48,7 +48,9 @@ def header(draw, size):
         return draw(st.sampled_from(["items=0-5", "BYTES=0-5", "bytes 0-5", "byte=0-5"]))
     if kind == "lenient":
         return draw(st.sampled_from(["bytes=+1-5", "bytes= 1-5", "bytes=1 -5", "bytes=1- 5", "bytes=01-05", "bytes=1-5 ", "bytes=-0"]))
-    return draw(st.sampled_from(["bytes=", "bytes=-", "bytes=a-b", "bytes=1-2-3", "bytes=5", "=0-5", "bytes=0x1-0x5", "bytes=1.5-2", "bytes=--5", "junk"]))
+    return draw(st.sampled_from(["bytes=", "bytes=-", "bytes=a-b", "bytes=1-2-3", "bytes=5", "=0-5", "bytes=0x1-0x5", "bytes=1.5-2", "bytes=--5", "junk",
+                                  # (sent as the single byte 0xff: a header value that is not even UTF-8 text)
+                                  "bytes=\u00ff-5", "bytes=0-5,\u00ff", "\u00ffbytes=0-1", "bytes=0-\u00ff"]))
 
 
 @st.composite
